@@ -18,6 +18,7 @@ import (
 	"encoding/hex"
 	"flag"
 	"fmt"
+	"os"
 	"os/exec"
 	"regexp"
 	"sort"
@@ -34,6 +35,8 @@ func init() {
 		"non-trivial = nesting depth >= 2 (a container holding at least one member, or a marked/refined value); distinct = distinct wire strings of the produced value", runC06)
 }
 
+var c06Trace = os.Getenv("C06_TRACE") != ""
+
 type c06Item struct {
 	producer string
 	wire     string
@@ -42,12 +45,14 @@ type c06Item struct {
 	walk     []string
 	depth    int
 	dupCause string
+	cause    func() string // producer-specific root-cause classifier for the failure signature (may be nil)
 }
 
 type c06Judge struct {
-	ctx   *Ctx
-	items []c06Item
-	seen  map[string]struct{}
+	ctx       *Ctx
+	items     []c06Item
+	seen      map[string]struct{}
+	nextCause func(res cty.Value) string // set by a producer just before produce(); consumed by see()
 }
 
 var c06StrRe = regexp.MustCompile(`x(?:[0-9a-f][0-9a-f])*\b`)
@@ -432,6 +437,8 @@ func c06Walk(v cty.Value) (probs []string, dupCause string) {
 
 // see records a value the real code returned.  lit says how to reproduce it.
 func (j *c06Judge) see(producer string, v cty.Value, lit func() string) {
+	causeOf := j.nextCause
+	j.nextCause = nil
 	j.ctx.Tag("produced:" + producer)
 	if v == cty.NilVal {
 		j.ctx.Tag("nilval:" + producer)
@@ -440,6 +447,10 @@ func (j *c06Judge) see(producer string, v cty.Value, lit func() string) {
 	var wire string
 	if p, _ := try(func() { wire = encVal(v) }); p {
 		j.ctx.Fail(Failure{Site: "dump", Sig: producer + ":dump-panic", What: "the value cannot be dumped (Type() or the payload walk panics)", Input: producer, GoLit: lit(), Outcome: "panic"})
+		return
+	}
+	if len(wire) > 1<<20 {
+		j.ctx.Tag("oversize-skipped:" + producer) // judged neither way; the generators keep values small
 		return
 	}
 	key := wire
@@ -454,14 +465,26 @@ func (j *c06Judge) see(producer string, v cty.Value, lit func() string) {
 	if depth >= 2 {
 		j.ctx.Tag("depth>=2:" + producer)
 	}
-	j.items = append(j.items, c06Item{producer: producer, wire: wire, bad: c06NfcBad(wire), lit: lit, walk: probs, depth: depth, dupCause: dupCause})
+	j.items = append(j.items, c06Item{producer: producer, wire: wire, bad: c06NfcBad(wire), lit: lit, walk: probs, depth: depth, dupCause: dupCause,
+		cause: func() string {
+			if causeOf == nil {
+				return ""
+			}
+			c := "?"
+			try(func() { c = causeOf(v) })
+			return c
+		}})
 }
 
 // run a producer under recover; a panicking producer is another property's business.
 func (j *c06Judge) produce(producer string, lit func() string, f func() cty.Value) (cty.Value, bool) {
 	var v cty.Value
+	if c06Trace {
+		fmt.Fprintln(os.Stderr, "C06TRACE", producer, lit())
+	}
 	if p, _ := try(func() { v = f() }); p {
 		j.ctx.Tag("producer-panicked:" + producer)
+		j.nextCause = nil
 		return cty.NilVal, false
 	}
 	j.see(producer, v, lit)
@@ -538,6 +561,8 @@ func (j *c06Judge) finish() {
 			sig := it.producer + ":" + it.walk[0]
 			if it.walk[0] == "set-duplicate" {
 				sig = "set-duplicate:" + it.dupCause // the root cause, whoever built the set
+			} else if c := it.cause(); c != "" {
+				sig += ":" + c
 			}
 			j.ctx.Fail(Failure{Site: "accessor-walk", Sig: sig,
 				What:  "a value returned by the library fails the public-accessor walk: " + strings.Join(it.walk, ", "),
@@ -548,6 +573,8 @@ func (j *c06Judge) finish() {
 			sig := it.producer + ":" + clause
 			if clause == "set-duplicate" && it.dupCause != "" {
 				sig = "set-duplicate:" + it.dupCause
+			} else if c := it.cause(); c != "" {
+				sig += ":" + c
 			}
 			j.ctx.Fail(Failure{Site: "wf", Sig: sig,
 				What:  "a value returned by the library is not well-formed for its type (Lean Value.WF): " + clause,
